@@ -151,6 +151,8 @@ impl Transaction {
 
         let operation = {
             let view_id = base_repo.op_store().write_view(view.store_view()).await?;
+            #[cfg(jj_vcs_jj_verif)]
+            crate::verif_hooks::point("tx.view_written", &crate::object_id::ObjectId::hex(&view_id));
             self.op_metadata.description = description.into();
             self.op_metadata.time.end = self.end_time.unwrap_or_else(Timestamp::now);
             let parents = self.parent_ops.iter().map(|op| op.id().clone()).collect();
@@ -164,10 +166,17 @@ impl Transaction {
                 .op_store()
                 .write_operation(&store_operation)
                 .await?;
+            #[cfg(jj_vcs_jj_verif)]
+            crate::verif_hooks::point("tx.op_written", &crate::object_id::ObjectId::hex(&new_op_id));
             Operation::new(base_repo.op_store().clone(), new_op_id, store_operation)
         };
 
         let index = base_repo.index_store().write_index(mut_index, &operation)?;
+        #[cfg(jj_vcs_jj_verif)]
+        crate::verif_hooks::point(
+            "tx.index_written",
+            &crate::object_id::ObjectId::hex(operation.id()),
+        );
         let unpublished = UnpublishedOperation::new(base_repo.loader(), operation, view, index);
         Ok(unpublished)
     }
@@ -229,6 +238,11 @@ impl UnpublishedOperation {
     }
 
     pub async fn publish(self) -> Result<Arc<ReadonlyRepo>, TransactionCommitError> {
+        #[cfg(jj_vcs_jj_verif)]
+        let _verif = crate::verif_hooks::scope(
+            "tx.publish",
+            &crate::object_id::ObjectId::hex(self.operation().id()),
+        );
         let _lock = self.op_heads_store.lock().await?;
         self.op_heads_store
             .update_op_heads(self.operation().parent_ids(), self.operation().id())
